@@ -478,10 +478,11 @@ theorem lines_whole_of_noEol (L : Lib J) (outs : List (Out J))
 variable {σ : Type}
 
 /-- no frame the request loop sends contains a newline of its own: action and specifier of a reply are
-cut out of a request line (which has none) or come from a well-formed triple of the dispatcher,
+cut out of a request line (which has none) or come from the dispatcher, of which only `DispNoEol` is assumed
+(`dispFits_noEol`: a dispatcher satisfying `DispFits` does; `dispatcher_no_newline`: the dispatcher model does),
 `json.dumps` emits none (`LibLaws.dumps_noEol`), the help line numbers are digits -/
 theorem frames_no_newline (T : Tables) (L : Lib J) (d : Disp σ J) (laws : LibLaws L) (tf : TableNoEol T)
-    (hd : DispFits T L d) (st : σ) (chunks : List Bytes) :
+    (hd : DispNoEol d) (st : σ) (chunks : List Bytes) :
     ∀ o ∈ (serve T L d [] st chunks).outs, EOL ∉ rstripSp (joined L o.msg) := by
   intro o ho hmem
   rw [(serve_eq_serveLines T L d chunks [] st).1] at ho
@@ -491,10 +492,69 @@ theorem frames_no_newline (T : Tables) (L : Lib J) (d : Disp σ J) (laws : LibLa
 /-- **lines_whole**, one sender — what the handler thread sends for any stream and segmentation, cut at
 its newlines, is exactly the sequence of its frames -/
 theorem lines_whole_sequential (T : Tables) (L : Lib J) (d : Disp σ J) (laws : LibLaws L) (tf : TableNoEol T)
-    (hd : DispFits T L d) (st : σ) (chunks : List Bytes) :
+    (hd : DispNoEol d) (st : σ) (chunks : List Bytes) :
     IsFraming (wire L (serve T L d [] st chunks).outs).flatten
       ((serve T L d [] st chunks).outs.map (fun o => rstripSp (joined L o.msg))) [] :=
   lines_whole_of_noEol L _ (frames_no_newline T L d laws tf hd st chunks)
+
+/-- what the node sends to a connection while a request is handled (updates, log messages) carries module, parameter and
+level names without newline -/
+def NodeEventsNoEol {ν κ : Type} (N : NodeIf ν κ J) : Prop := ∀ nu k t, ∀ m ∈ N.events nu k t, NoEolTriple m
+
+/-- the reply actions contain no newline (generated tables: `generated_reply_noEol`) -/
+def TableReplyNoEol (T : Tables) : Prop := EOL ∉ T.identReply ∧ ∀ p ∈ T.request2reply, EOL ∉ p.2
+
+theorem generated_reply_noEol : TableReplyNoEol tables := ⟨by decide, by decide⟩
+
+/-- **dispatcher_no_newline** — the `DispNoEol` hypothesis of `frames_no_newline`, `lines_whole`, `peer_gone_sound`,
+`peer_gone_partial` is a property of the dispatcher model, for every node: the reply action comes from the table, the
+specifier is the request's (or `.`), whatever characters it consists of -/
+theorem dispatcher_no_newline {ν κ : Type} (T : Tables) (D : DTables) (N : NodeIf ν κ J) (tr : TableReplyNoEol T)
+    (hN : NodeEventsNoEol N) : DispNoEol (dispatch T D N) := by
+  intro st t ht
+  refine ⟨fun m hm => hN st.1 st.2 t m hm, fun r hr => ?_⟩
+  simp only [dispatch] at hr
+  by_cases hid : t.action = T.identRequest
+  · simp only [hid, ↓reduceIte, DispResult.ok.injEq] at hr
+    subst hr
+    exact ⟨tr.1, by simp⟩
+  · simp only [hid, ↓reduceIte] at hr
+    cases hl : T.request2reply.lookup t.action with
+    | none => simp [hl] at hr
+    | some reply =>
+      simp only [hl] at hr
+      obtain ⟨h1, h2⟩ := handleAction_ok T D N reply st.1 t r hr
+      have hmem : (t.action, reply) ∈ T.request2reply := by
+        have : ∀ (l : List (Bytes × Bytes)), l.lookup t.action = some reply → (t.action, reply) ∈ l := by
+          intro l
+          induction l with
+          | nil => simp
+          | cons p ps ih =>
+            obtain ⟨a, b⟩ := p
+            simp only [List.lookup_cons]
+            split
+            · rename_i heq
+              intro hb
+              simp only [Option.some.injEq] at hb
+              have ha : t.action = a := by simpa using heq
+              simp [ha, hb]
+            · intro hb
+              exact List.mem_cons_of_mem _ (ih hb)
+        exact this _ hl
+      refine ⟨by rw [h1]; exact tr.2 _ hmem, ?_⟩
+      rcases h2 with h2 | ⟨_, _, h2⟩
+      · rw [h2]; exact ht.2
+      · rw [h2]; decide
+
+/-- **dispatcher_lines_whole** — the handler thread with the dispatcher model behind it, over any node whose events carry
+names without newline, on any byte stream in any segmentation: what it sends, cut at the newlines, is exactly its frames —
+no hypothesis on the dispatcher left, and no assumption on the characters of echoed specifiers -/
+theorem dispatcher_lines_whole {ν κ : Type} (L : Lib J) (N : NodeIf ν κ J) (laws : LibLaws L) (hN : NodeEventsNoEol N)
+    (st : ν × κ) (chunks : List Bytes) :
+    IsFraming (wire L (serve tables L (dispatch tables dtables N) [] st chunks).outs).flatten
+      ((serve tables L (dispatch tables dtables N) [] st chunks).outs.map (fun o => rstripSp (joined L o.msg))) [] :=
+  lines_whole_sequential tables L _ laws generated_table_noEol
+    (dispatcher_no_newline tables dtables N generated_reply_noEol hN) st chunks
 
 /-- a frame: a body without newline, then the newline -/
 def IsFrame (f : Bytes) : Prop := ∃ body, f = body ++ [EOL] ∧ EOL ∉ body
@@ -523,7 +583,7 @@ frames — followed by a rest without newline, which is empty as long as no send
 the written part of the torn frame, and nothing is ever appended to it); while a sender is inside `sendall`, it
 is the completed frames followed by a part of one frame.  No line is split by another. -/
 theorem lines_whole (T : Tables) (L : Lib J) (d : Disp σ J) (laws : LibLaws L) (tf : TableNoEol T)
-    (hd : DispFits T L d) (st : σ) (chunks : List Bytes)
+    (hd : DispNoEol d) (st : σ) (chunks : List Bytes)
     (others : Nat → List (Triple J)) (hothers : ∀ i, ∀ m ∈ others i, WFTriple L m)
     (s : SockState)
     (hreach : SendReach (sockInit (fun i => if i = 0 then wire L (serve T L d [] st chunks).outs
@@ -663,7 +723,7 @@ theorem peer_gone_prefix (T : Tables) (L : Lib J) (d : Disp σ J) (st : σ) (chu
 /-- what the peer got before it went away is sound: whole frames without a newline of their own, and
 the replies among them answer the first request lines, one each, in order -/
 theorem peer_gone_sound (T : Tables) (L : Lib J) (d : Disp σ J) (laws : LibLaws L) (tf : TableNoEol T)
-    (hd : DispFits T L d) (st : σ) (chunks : List Bytes) (n : Nat) :
+    (hd : DispNoEol d) (st : σ) (chunks : List Bytes) (n : Nat) :
     (∀ o ∈ (serveF T L d ⟨n, true⟩ [] st chunks).outs, EOL ∉ rstripSp (joined L o.msg))
     ∧ (replies (serveF T L d ⟨n, true⟩ [] st chunks).outs).map (·.req) <+: (splitLines chunks.flatten).lines := by
   obtain ⟨h, _⟩ := peer_gone_prefix T L d st chunks n
@@ -682,7 +742,7 @@ before — whole lines — followed by an unterminated rest without newline (the
 follows the torn frame: `send_reply` does not touch the socket once a send has failed, whether or not the
 socket would accept data again. -/
 theorem peer_gone_partial (T : Tables) (L : Lib J) (d : Disp σ J) (laws : LibLaws L) (tf : TableNoEol T)
-    (hd : DispFits T L d) (st : σ) (chunks : List Bytes) (n k : Nat)
+    (hd : DispNoEol d) (st : σ) (chunks : List Bytes) (n k : Nat)
     (hk : ∀ o, (serveF T L d ⟨n, true⟩ [] st chunks).torn = some o → k < (encodeFrame L o.msg).length) :
     let r := serveF T L d ⟨n, true⟩ [] st chunks
     let full := serve T L d [] st chunks
@@ -1048,5 +1108,37 @@ example : judgeReceived tables [112, 105, 110, 103, 32, 97, 10, 112, 105, 110, 1
 -- torn inside the data part: the line fits by action and specifier, its data part is no JSON (flag of the harness)
 example : judgeReceived tables [112, 105, 110, 103, 32, 97, 10, 112, 105, 110, 103, 32, 98, 10] [112, 111, 110, 103, 32, 97, 32, 91, 110, 117, 112, 111, 110, 103, 32, 98, 32, 91, 110, 117, 108, 108, 93, 10] [(true, false)]
     = .notStrict 0 := by decide
+
+/-! ## Non-vacuity: `DispNoEol`, and why it replaces `DispFits` in the whole-line theorems -/
+
+example : DispNoEol d0 := dispFits_noEol d0_fits
+
+/-- a node that sends one update of `m` during every request -/
+def N1 : NodeIf Nat Unit Bool := { N0 with events := fun _ _ _ => [⟨[117, 112, 100, 97, 116, 101], some [109], some true⟩] }
+
+example : NodeEventsNoEol N1 := by
+  intro nu k t m hm
+  simp only [N1, List.mem_singleton] at hm
+  subst hm
+  exact ⟨by decide, by decide⟩
+
+/-- `ping <DEL>` is answered `pong <DEL>` by the dispatcher (model and real one): a specifier that is no `Token`, so the
+reply is no `WFTriple` and the dispatcher does not satisfy `DispFits` on this request — `DispNoEol` covers it -/
+example :
+    (match (dispatch tables dtables N1 (0, ()) ⟨[112, 105, 110, 103], some [127], none⟩).1.res with
+      | .ok r => r.action == [112, 111, 110, 103] && r.spec == some [127]
+      | _ => false) = true
+    ∧ ¬ WFTriple L0 ⟨[112, 111, 110, 103], some [127], some false⟩
+    ∧ NoEolTriple (⟨[112, 111, 110, 103], some [127], some false⟩ : Triple Bool) := by
+  refine ⟨by decide, fun h => ?_, by decide, by decide⟩
+  have := (h.2 [127] rfl).1
+  revert this
+  decide
+
+/-- the stream `ping <DEL>\nread m\n` in two chunks with the dispatcher model over `N1`: four frames (each request
+preceded by the update), cut at the newlines exactly these -/
+example : (wire L0 (serve tables L0 (dispatch tables dtables N1) [] (0, ()) [[112, 105, 110, 103, 32, 127, 10, 114, 101], [97, 100, 32, 109, 10]]).outs)
+    = [[117, 112, 100, 97, 116, 101, 32, 109, 32, 116, 10], [112, 111, 110, 103, 32, 127, 32, 102, 10],
+       [117, 112, 100, 97, 116, 101, 32, 109, 32, 116, 10], [114, 101, 112, 108, 121, 32, 109, 32, 116, 10]] := by decide
 
 end Frappy.Props.C07
